@@ -1381,28 +1381,35 @@ def _fold_constant_tests(body: List[ast.stmt]) -> List[ast.stmt]:
 
 
 def _specialise_constant_flags(tree: ast.Module, modname: str, known: Optional[set]) -> None:
-    """A private helper introduced after the rules were written that takes a FLAG (`missing_ok=False`, `retry=True`,
-    `on_error=None`) which every call site gives as a literal (or leaves at its literal default) and which the helper only TESTS
-    is two or three functions sharing a body: one copy per distinct literal combination, the flag substituted and the tests on it
-    folded away.  What the rules then see per call site is the code path that call site can take."""
+    """A private helper (or nested function) introduced after the rules were written that takes a FLAG (`missing_ok=False`,
+    `retry=True`, `on_error=None`, `negate`) which every call site gives as a literal (or leaves at its literal default) - also
+    through `functools.partial(helper, <literal>)` - and which the helper never re-binds is two or three functions sharing a
+    body: one copy per distinct literal combination, the flag substituted and the tests on it folded away.  What the rules
+    then see per call site is the code path that call site can take."""
     import copy
     if known is None:
         return
-    owners: List[Tuple[List[ast.stmt], Optional[str]]] = [(tree.body, None)]
-    owners += [(c.body, c.name) for c in tree.body if isinstance(c, ast.ClassDef)]
+    owners: List[Tuple[List[ast.stmt], Optional[str], str]] = [(tree.body, None, "module")]
+    owners += [(c.body, c.name, "class") for c in tree.body if isinstance(c, ast.ClassDef)]
+    for fd_ in [x for x in ast.walk(tree) if isinstance(x, ast.FunctionDef)]:
+        if any(isinstance(st, ast.FunctionDef) for st in fd_.body):
+            owners.append((fd_.body, None, "nested"))
     all_defs = [x.name for x in ast.walk(tree) if isinstance(x, (ast.FunctionDef, ast.AsyncFunctionDef))]
 
     def literal(e: Optional[ast.AST]) -> bool:
         return isinstance(e, ast.Constant) and (e.value is None or isinstance(e.value, (bool,)))
 
-    for body, cname in owners:
+    replace_expr: Dict[int, ast.AST] = {}
+    for body, cname, okind in owners:
         for f in list(body):
             if not isinstance(f, ast.FunctionDef) or not f.name.startswith("_") or f.name.startswith("__"):
                 continue
             if any(not (isinstance(d, ast.Name) and d.id in ("staticmethod", "classmethod")) for d in f.decorator_list):
                 continue
             q = f"{modname}.{cname}.{f.name}" if cname else f"{modname}.{f.name}"
-            if q in known or all_defs.count(f.name) != 1 or f.args.vararg or f.args.kwarg or f.args.posonlyargs or f.args.kwonlyargs:
+            if (okind != "nested" and q in known) or all_defs.count(f.name) != 1 or f.args.vararg or f.args.kwarg or f.args.posonlyargs or f.args.kwonlyargs:
+                continue
+            if okind == "nested" and any(k.endswith(".<locals>." + f.name) for k in known):
                 continue
             is_static = any(isinstance(d, ast.Name) and d.id == "staticmethod" for d in f.decorator_list)
             params = [a.arg for a in f.args.args]
@@ -1414,38 +1421,39 @@ def _specialise_constant_flags(tree: ast.Module, modname: str, known: Optional[s
                 dpos = i_ - (nargs - len(f.args.defaults))
                 if 0 <= dpos < len(f.args.defaults):
                     defaults[a.arg] = f.args.defaults[dpos]
-            refs = [x for x in ast.walk(tree) if (isinstance(x, ast.Attribute) and x.attr == f.name) or (isinstance(x, ast.Name) and x.id == f.name)]
+            refs = [x for x in ast.walk(tree) if (isinstance(x, ast.Attribute) and x.attr == f.name) or (isinstance(x, ast.Name) and x.id == f.name and isinstance(x.ctx, ast.Load))]
             calls = [x for x in ast.walk(tree) if isinstance(x, ast.Call) and any(x.func is r for r in refs)]
-            if not calls or len(calls) != len(refs):
+            parts = [x for x in ast.walk(tree) if isinstance(x, ast.Call) and (dotted(x.func) or "").split(".")[-1] == "partial"
+                     and x.args and any(x.args[0] is r for r in refs)]
+            if not (calls or parts) or len(calls) + len(parts) != len(refs):
                 continue
-            if any(any(isinstance(a, ast.Starred) for a in c.args) or any(k.arg is None for k in c.keywords) for c in calls):
+            if any(any(isinstance(a, ast.Starred) for a in c.args) or any(k.arg is None for k in c.keywords) for c in calls + parts):
                 continue
+
+            def arg_of(site: ast.Call, pn: str) -> Optional[ast.AST]:
+                idx = params.index(pn)
+                pos = site.args[1:] if site in parts else site.args
+                if idx < len(pos):
+                    return pos[idx]
+                kw = next((k.value for k in site.keywords if k.arg == pn), None)
+                if kw is not None:
+                    return kw
+                return defaults.get(pn) if site not in parts else None  # a partial that leaves the flag open is not a literal site
+
             flags = []
             for pn in params:
-                if pn not in defaults or not literal(defaults[pn]):
-                    continue
                 uses = [x for x in ast.walk(f) if isinstance(x, ast.Name) and x.id == pn]
                 if not uses or any(not isinstance(x.ctx, ast.Load) for x in uses):
                     continue
-                idx = params.index(pn)
-                vals = []
-                for c in calls:
-                    arg = c.args[idx] if idx < len(c.args) else next((k.value for k in c.keywords if k.arg == pn), defaults[pn])
-                    vals.append(arg)
-                if all(literal(v) for v in vals) and len({repr(v.value) for v in vals}) >= 1:  # type: ignore[union-attr]
-                    # the flag is only tested: every use sits in a test position (if / while / IfExp test, not, and / or, `is None`)
+                vals = [arg_of(c, pn) for c in calls + parts]
+                if all(literal(v) for v in vals):
                     flags.append(pn)
             if not flags:
                 continue
             combos: Dict[Tuple, List[ast.Call]] = {}
-            for c in calls:
-                key = []
-                for pn in flags:
-                    idx = params.index(pn)
-                    arg = c.args[idx] if idx < len(c.args) else next((k.value for k in c.keywords if k.arg == pn), defaults[pn])
-                    key.append(arg.value)  # type: ignore[union-attr]
-                combos.setdefault(tuple(key), []).append(c)
-            if len(combos) > 4 or (len(combos) == 1 and len(calls) > 0 and False):
+            for c in calls + parts:
+                combos.setdefault(tuple(arg_of(c, pn).value for pn in flags), []).append(c)  # type: ignore[union-attr]
+            if len(combos) > 4:
                 continue
 
             class _S(ast.NodeTransformer):
@@ -1459,7 +1467,7 @@ def _specialise_constant_flags(tree: ast.Module, modname: str, known: Optional[s
 
             clones = []
             names = {}
-            for i_, key in enumerate(sorted(combos, key=repr)):
+            for key in sorted(combos, key=repr):
                 env = dict(zip(flags, key))
                 cl = copy.deepcopy(f)
                 tag = "_".join(f"{pn}_{str(v)}" for pn, v in env.items())
@@ -1482,23 +1490,35 @@ def _specialise_constant_flags(tree: ast.Module, modname: str, known: Optional[s
             body[at:at + 1] = clones
             for key, cs in combos.items():
                 for c in cs:
-                    if isinstance(c.func, ast.Attribute):
-                        c.func.attr = names[key]
-                    elif isinstance(c.func, ast.Name):
-                        c.func.id = names[key]
+                    target = c.args[0] if c in parts else c.func
+                    if isinstance(target, ast.Attribute):
+                        target.attr = names[key]
+                    elif isinstance(target, ast.Name):
+                        target.id = names[key]
                     drop = sorted((params.index(pn) for pn in flags), reverse=True)
+                    shift = 1 if c in parts else 0
                     for idx in drop:
-                        if idx < len(c.args):
-                            del c.args[idx]
+                        if idx + shift < len(c.args):
+                            del c.args[idx + shift]
                     c.keywords = [kw for kw in c.keywords if kw.arg not in flags]
+                    if c in parts and len(c.args) == 1 and not c.keywords:
+                        replace_expr[id(c)] = c.args[0]  # partial(clone) with nothing left to bind IS the clone
+    if replace_expr:
+        class _R(ast.NodeTransformer):
+            def visit_Call(self, node):  # type: ignore[no-untyped-def]
+                self.generic_visit(node)
+                return replace_expr.get(id(node), node)
+        _R().visit(tree)
+        ast.fix_missing_locations(tree)
 
 
 def _specialise_handler_class_params(tree: ast.Module, modname: str, known: Optional[set]) -> None:
-    """A private helper introduced after the rules were written whose parameter is the tuple of exception classes it
-    swallows (`def _fsync_path(path, ignore=None): ... except ignore: pass`), called only with literal tuples / None / the
-    default: one copy per distinct argument, the parameter substituted by the tuple it denotes there - after the helper's own
-    default resolution, for the spellings `if p is None: p = E`, `p = p or E` (an EMPTY tuple is falsy), `p = E if p is None
-    else p` at the top of its body.  The rules then see `except (OSError, AttributeError):` resp. `except ():` per call site."""
+    """A private helper (plain or @contextmanager) introduced after the rules were written whose parameters are the tuples of
+    exception classes it handles (`def _fsync_path(path, ignore=None): ... except ignore: pass`; `except keep_on: raise / except
+    discard_on: <cleanup>; raise`), called only with literal tuples / None / the defaults: one copy per distinct argument
+    combination, each parameter substituted by the tuple it denotes there - after the helper's own default resolution, for the
+    spellings `if p is None: p = E`, `p = p or E` (an EMPTY tuple is falsy), `p = E if p is None else p` at the top of its body.
+    The rules then see `except (OSError, AttributeError):` resp. `except ():` per call site."""
     import copy
     if known is None:
         return
@@ -1519,117 +1539,142 @@ def _specialise_handler_class_params(tree: ast.Module, modname: str, known: Opti
 
     for body, cname in owners:
         for f in list(body):
-            if not isinstance(f, ast.FunctionDef) or not f.name.startswith("_") or f.name.startswith("__") or f.decorator_list:
+            if not isinstance(f, ast.FunctionDef) or not f.name.startswith("_") or f.name.startswith("__"):
+                continue
+            if any((dotted(d) or "").split(".")[-1] not in ("contextmanager", "staticmethod") for d in f.decorator_list):
                 continue
             q = f"{modname}.{cname}.{f.name}" if cname else f"{modname}.{f.name}"
             if q in known or all_defs.count(f.name) != 1 or f.args.vararg or f.args.kwarg or f.args.posonlyargs or f.args.kwonlyargs:
                 continue
+            is_static = any(isinstance(d, ast.Name) and d.id == "staticmethod" for d in f.decorator_list)
             params = [a.arg for a in f.args.args]
-            if cname:
-                if not params or params[0] != "self":
-                    continue
-                params = params[1:]
-            disp = next((pn for pn in params if any(isinstance(h, ast.ExceptHandler) and isinstance(h.type, ast.Name) and h.type.id == pn
-                                                    for h in ast.walk(f))), None)
-            if disp is None:
+            off = 1 if (cname and not is_static) else 0
+            if off and (not params or params[0] != "self"):
                 continue
-            # the helper's own default resolution: at most one re-binding, a top-level statement of a known spelling
-            rebinds = [x for x in ast.walk(f) if isinstance(x, ast.Name) and x.id == disp and isinstance(x.ctx, ast.Store)]
-            resolver = None  # (statement, kind, E)
-            for st in f.body:
-                if isinstance(st, ast.If) and not st.orelse and len(st.body) == 1 and isinstance(st.test, ast.Compare) and len(st.test.ops) == 1 \
-                        and isinstance(st.test.ops[0], ast.Is) and isinstance(st.test.left, ast.Name) and st.test.left.id == disp \
-                        and isinstance(st.test.comparators[0], ast.Constant) and st.test.comparators[0].value is None \
-                        and isinstance(st.body[0], ast.Assign) and len(st.body[0].targets) == 1 and isinstance(st.body[0].targets[0], ast.Name) \
-                        and st.body[0].targets[0].id == disp:
-                    resolver = (st, "none", st.body[0].value)
-                elif isinstance(st, ast.Assign) and len(st.targets) == 1 and isinstance(st.targets[0], ast.Name) and st.targets[0].id == disp:
-                    v = st.value
-                    if isinstance(v, ast.BoolOp) and isinstance(v.op, ast.Or) and len(v.values) == 2 and isinstance(v.values[0], ast.Name) \
-                            and v.values[0].id == disp:
-                        resolver = (st, "falsy", v.values[1])
-                    elif isinstance(v, ast.IfExp) and isinstance(v.test, ast.Compare) and len(v.test.ops) == 1 and isinstance(v.test.left, ast.Name) \
-                            and v.test.left.id == disp and isinstance(v.test.comparators[0], ast.Constant) and v.test.comparators[0].value is None:
-                        if isinstance(v.test.ops[0], ast.Is) and isinstance(v.orelse, ast.Name) and v.orelse.id == disp:
-                            resolver = (st, "none", v.body)
-                        elif isinstance(v.test.ops[0], ast.IsNot) and isinstance(v.body, ast.Name) and v.body.id == disp:
-                            resolver = (st, "none", v.orelse)
-                if resolver is not None:
+            params = params[off:]
+            disps = [pn for pn in params if any(isinstance(h, ast.ExceptHandler) and isinstance(h.type, ast.Name) and h.type.id == pn
+                                                for h in ast.walk(f))]
+            if not disps:
+                continue
+            # the helper's own default resolution: at most one re-binding per parameter, a top-level statement of a known spelling
+            resolvers: Dict[str, Tuple[ast.stmt, str, ast.AST]] = {}
+            bad = False
+            for disp in disps:
+                rebinds = [x for x in ast.walk(f) if isinstance(x, ast.Name) and x.id == disp and isinstance(x.ctx, ast.Store)]
+                resolver = None
+                for st in f.body:
+                    if isinstance(st, ast.If) and not st.orelse and len(st.body) == 1 and isinstance(st.test, ast.Compare) and len(st.test.ops) == 1 \
+                            and isinstance(st.test.ops[0], ast.Is) and isinstance(st.test.left, ast.Name) and st.test.left.id == disp \
+                            and isinstance(st.test.comparators[0], ast.Constant) and st.test.comparators[0].value is None \
+                            and isinstance(st.body[0], ast.Assign) and len(st.body[0].targets) == 1 and isinstance(st.body[0].targets[0], ast.Name) \
+                            and st.body[0].targets[0].id == disp:
+                        resolver = (st, "none", st.body[0].value)
+                    elif isinstance(st, ast.Assign) and len(st.targets) == 1 and isinstance(st.targets[0], ast.Name) and st.targets[0].id == disp:
+                        v = st.value
+                        if isinstance(v, ast.BoolOp) and isinstance(v.op, ast.Or) and len(v.values) == 2 and isinstance(v.values[0], ast.Name) \
+                                and v.values[0].id == disp:
+                            resolver = (st, "falsy", v.values[1])
+                        elif isinstance(v, ast.IfExp) and isinstance(v.test, ast.Compare) and len(v.test.ops) == 1 and isinstance(v.test.left, ast.Name) \
+                                and v.test.left.id == disp and isinstance(v.test.comparators[0], ast.Constant) and v.test.comparators[0].value is None:
+                            if isinstance(v.test.ops[0], ast.Is) and isinstance(v.orelse, ast.Name) and v.orelse.id == disp:
+                                resolver = (st, "none", v.body)
+                            elif isinstance(v.test.ops[0], ast.IsNot) and isinstance(v.body, ast.Name) and v.body.id == disp:
+                                resolver = (st, "none", v.orelse)
+                    if resolver is not None:
+                        break
+                if len(rebinds) != (1 if resolver is not None else 0) or (resolver is not None and classes_tuple(resolver[2]) is None):
+                    bad = True
                     break
-            if len(rebinds) != (1 if resolver is not None else 0):
+                if resolver is not None:
+                    resolvers[disp] = resolver
+            if bad:
                 continue
-            if resolver is not None and classes_tuple(resolver[2]) is None:
-                continue
-            idx = params.index(disp)
             refs = [x for x in ast.walk(tree) if (isinstance(x, ast.Attribute) and x.attr == f.name) or (isinstance(x, ast.Name) and x.id == f.name)]
             calls = [x for x in ast.walk(tree) if isinstance(x, ast.Call) and any(x.func is r for r in refs)]
             if not calls or len(calls) != len(refs):
                 continue
-            pos = idx + (1 if cname else 0)
             nargs = len(f.args.args)
-            dpos = pos - (nargs - len(f.args.defaults))
-            default = f.args.defaults[dpos] if 0 <= dpos < len(f.args.defaults) else None
-            values: List[Tuple[ast.Call, str, ast.Tuple]] = []
+
+            def default_of(pn: str) -> Optional[ast.AST]:
+                pos = params.index(pn) + off
+                dpos = pos - (nargs - len(f.args.defaults))
+                return f.args.defaults[dpos] if 0 <= dpos < len(f.args.defaults) else None
+
+            values: List[Tuple[ast.Call, Tuple[str, ...], Dict[str, ast.Tuple]]] = []
             for c in calls:
                 if any(isinstance(a, ast.Starred) for a in c.args) or any(k.arg is None for k in c.keywords):
                     values = []
                     break
-                arg = c.args[idx] if idx < len(c.args) else next((k.value for k in c.keywords if k.arg == disp), default)
-                if arg is None:
+                env: Dict[str, ast.Tuple] = {}
+                for disp in disps:
+                    idx = params.index(disp)
+                    arg = c.args[idx] if idx < len(c.args) else next((k.value for k in c.keywords if k.arg == disp), default_of(disp))
+                    if arg is None:
+                        env = {}
+                        break
+                    is_none = isinstance(arg, ast.Constant) and arg.value is None
+                    tup = classes_tuple(arg)
+                    if not is_none and tup is None:
+                        env = {}
+                        break
+                    rs = resolvers.get(disp)
+                    if rs is not None and (is_none or (rs[1] == "falsy" and tup is not None and not tup.elts)):
+                        tup = classes_tuple(rs[2])
+                    if tup is None:
+                        env = {}
+                        break
+                    env[disp] = tup
+                if len(env) != len(disps):
                     values = []
                     break
-                is_none = isinstance(arg, ast.Constant) and arg.value is None
-                tup = classes_tuple(arg)
-                if not is_none and tup is None:
-                    values = []
-                    break
-                if resolver is not None and (is_none or (resolver[1] == "falsy" and tup is not None and not tup.elts)):
-                    tup = classes_tuple(resolver[2])
-                if tup is None:  # None reaches `except None:` - not a spelling to specialise
-                    values = []
-                    break
-                values.append((c, ast.dump(tup), tup))
+                values.append((c, tuple(ast.dump(env[d]) for d in disps), env))
             if not values:
                 continue
-            distinct = sorted({k for _c, k, _t in values})
+            distinct = sorted({k for _c, k, _e in values})
             if len(distinct) > 4:
                 continue
             tags = {k: f"h{i}" for i, k in enumerate(distinct)}
 
             class _S(ast.NodeTransformer):
-                def __init__(self, tup: ast.Tuple) -> None:
-                    self.tup = tup
+                def __init__(self, env: Dict[str, ast.Tuple]) -> None:
+                    self.env = env
 
                 def visit_Name(self, node):  # type: ignore[no-untyped-def]
-                    if node.id == disp and isinstance(node.ctx, ast.Load):
-                        return ast.copy_location(copy.deepcopy(self.tup), node)
+                    if node.id in self.env and isinstance(node.ctx, ast.Load):
+                        return ast.copy_location(copy.deepcopy(self.env[node.id]), node)
                     return node
 
             clones = []
             for k in distinct:
-                tup = next(t for _c, kk, t in values if kk == k)
+                env = next(e for _c, kk, e in values if kk == k)
                 cl = copy.deepcopy(f)
                 cl.name = f"{f.name}__{tags[k]}"
-                del cl.args.args[pos]
-                if 0 <= dpos < len(cl.args.defaults):
-                    del cl.args.defaults[dpos]
-                if resolver is not None:
-                    ri = f.body.index(resolver[0])
+                keep_args, keep_defaults = [], []
+                for j_, a in enumerate(cl.args.args):
+                    if a.arg in env:
+                        continue
+                    keep_args.append(a)
+                    dpos = j_ - (nargs - len(f.args.defaults))
+                    if 0 <= dpos < len(cl.args.defaults):
+                        keep_defaults.append(cl.args.defaults[dpos])
+                cl.args.args, cl.args.defaults = keep_args, keep_defaults
+                drop_idx = sorted((f.body.index(rs[0]) for rs in resolvers.values()), reverse=True)
+                for ri in drop_idx:
                     del cl.body[ri]
-                cl.body = [_S(tup).visit(st) for st in cl.body] or [ast.Pass()]
+                cl.body = [_S(env).visit(st) for st in cl.body] or [ast.Pass()]
                 ast.fix_missing_locations(cl)
                 clones.append(cl)
             at = body.index(f)
             body[at:at + 1] = clones
-            for c, k, _t in values:
+            for c, k, _e in values:
                 if isinstance(c.func, ast.Attribute):
                     c.func.attr = f"{f.name}__{tags[k]}"
                 elif isinstance(c.func, ast.Name):
                     c.func.id = f"{f.name}__{tags[k]}"
-                if idx < len(c.args):
-                    del c.args[idx]
-                else:
-                    c.keywords = [kw for kw in c.keywords if kw.arg != disp]
+                for idx in sorted((params.index(d) for d in disps), reverse=True):
+                    if idx < len(c.args):
+                        del c.args[idx]
+                c.keywords = [kw for kw in c.keywords if kw.arg not in disps]
 
 
 @dataclass
